@@ -1,6 +1,7 @@
 import GenjaxModel.Model.SelIO
 import GenjaxModel.Model.GfiIO
 import GenjaxModel.Model.ResampleIO
+import GenjaxModel.Model.ChainIO
 /-! Line-protocol driver: one S-expression per input line, one per output line. -/
 open Genjax
 
@@ -12,6 +13,9 @@ def dispatch (e : SExp) : SExp :=
   | some r => r
   | none =>
   match stepResample e with
+  | some r => r
+  | none =>
+  match stepChain e with
   | some r => r
   | none => .list [.atom "bad-op"]
 
